@@ -5,7 +5,7 @@ SPEC = dict(
     targets=["Properties/C05.vo", "Corr/C05.vo"],
     args=lambda tier, seed: ["-seed", seed, "-mix", "c05", "-n", 160 if tier == "quick" else 3000, "-events", 40],
     search_args=lambda seed: ["-seed", seed, "-mix", "c05", "-n", 400, "-events", 40],
-    shard=12, timeout=2400,
+    shard=4, timeout=2400,
     patterns={2: "C05-dupacks-after-recovery"},
     rule="seeded scripts of <= 40 events against an established connection of the real stack (ISS/IRS adjacent to 0, 2^31, 2^32 and random; peer MSS 20..1460, window scale, timestamps, SACK-permitted, IPv4/IPv6, small/large buffers), event mix c05: writes of 1 byte .. 40*MSS, cumulative / segment-boundary / partial (mid-flight) ACKs, bursts of 1..5 exact duplicate ACKs, retransmission time-outs delivered explicitly (time is an input of the trace), some peer data and reads; after EVERY event the implementation's full protocol state, emitted frames and application result are compared with Model.Tcp.step, and the monitor Corr.C05.spec checks on the implementation's observations alone: <= 10 data segments before the first ACK/time-out; distinct data segments in flight since the last time-out <= 10 + segments acknowledged + duplicate ACKs; the third exact duplicate ACK (first recovery of the trace, or beyond the point of a time-out) retransmits the segment at sndUna in that step; partial ACKs in that recovery retransmit the new head; every real time-out doubles rto and emits at most one data segment - exactly one, at sndUna, when the head was sent before and the peer window covers it; rto >= 200 ms, cwnd >= 1, ssthresh >= 2 in every snapshot; a trace is non-trivial when data segments were emitted (tag bit 1; 2 fast recovery entered, 4 time-out, 8 partial ACK in recovery, 16 cwnd grew, 32 duplicate ACKs beyond a finished fast recovery ignored = known finding C05-dupacks-after-recovery (spec code 2), 64 connection given up); distinct = distinct case lines",
     trusted_base=TCP_TB, assumptions=TCP_ASSUME + [
